@@ -17,7 +17,7 @@ def openExceptions : List (String × String) :=
   [("SpectroscopicSightLineGroup", "sensitivity"), ("SpectroscopicSightLineGroup", "names")]
 
 theorem table_partial_all :
-    table.all (fun d => d.admissible table || openExceptions.contains (d.cls, d.name)) = true := by decide
+    table.all (fun d => d.admissible table || openExceptions.contains (d.cls, d.name)) = true := by decide +kernel
 
 theorem table_wf_partial : ∀ d ∈ table, d.admissible table = true ∨ (d.cls, d.name) ∈ openExceptions := by
   intro d hd
